@@ -64,6 +64,8 @@ type world struct {
 	mu         sync.Mutex
 	srv        *server.Server
 	policy     map[int]pol
+	inherit    map[int]bool // commands for which the per-command selector returns nil: the server's default policy applies
+	defPol     pol
 	authzOn    bool
 	authz      map[string]bool // perm|user
 	keepNext   bool
@@ -82,7 +84,7 @@ var osUser = func() string {
 }()
 
 func newWorld() *world {
-	w := &world{policy: map[int]pol{}, authz: map[string]bool{}}
+	w := &world{policy: map[int]pol{}, authz: map[string]bool{}, inherit: map[int]bool{}, defPol: pol{Auth: 2, Enc: 2}}
 	for _, c := range authCmds {
 		w.policy[c] = pol{Auth: 2, Enc: 2}
 	}
@@ -93,6 +95,9 @@ func newWorld() *world {
 	w.srv.SecurityConfigForCommand = func(cmd int) *security.SecurityConfig {
 		w.mu.Lock()
 		p, ok := w.policy[cmd]
+		if w.inherit[cmd] {
+			ok = false
+		}
 		w.mu.Unlock()
 		if !ok {
 			return nil
@@ -188,6 +193,28 @@ type stats struct {
 	invoked, refused int
 }
 
+// effective returns the policy that applies to cmd (caller holds w.mu).
+func (w *world) effective(cmd int) (pol, bool) {
+	p, ok := w.policy[cmd]
+	if ok && w.inherit[cmd] {
+		return w.defPol, true
+	}
+	return p, ok
+}
+
+// setDefault installs the default policy on the server (between connections).
+func (w *world) setDefault(p pol) {
+	w.mu.Lock()
+	w.defPol = p
+	w.mu.Unlock()
+	c := w.srv.SecurityConfig
+	c.Authentication, c.Encryption = lvl[p.Auth], lvl[p.Enc]
+	c.Integrity = security.SecurityOptional
+	if p.Integ {
+		c.Integrity = security.SecurityRequired
+	}
+}
+
 // allowed is the reference admission model.
 func (w *world) allowed(cmd int, viaHandshake bool, authed, encrypted bool, user string) bool {
 	w.mu.Lock()
@@ -195,7 +222,7 @@ func (w *world) allowed(cmd int, viaHandshake bool, authed, encrypted bool, user
 	if cmd == cmdRaw1 || cmd == cmdRaw2 {
 		return !viaHandshake
 	}
-	p, ok := w.policy[cmd]
+	p, ok := w.effective(cmd)
 	if !ok || !viaHandshake {
 		return false
 	}
@@ -264,10 +291,10 @@ func runCase(cs Case) (string, stats) {
 			}
 			if !ok {
 				return fmt.Sprintf("handler of command %d was invoked although the reference model refuses it (ground truth: via handshake=%v authenticated=%v encrypted=%v identity=%q; server believed authenticated=%v encrypted=%v user=%q; policy %+v authorizer=%v)",
-					cmd, viaHandshake, authed, enc, usr, inv.negAuth, inv.encState, inv.user, w.policy[cmd], w.authzOn)
+					cmd, viaHandshake, authed, enc, usr, inv.negAuth, inv.encState, inv.user, w.policy[cmd], w.authzOn) + fmt.Sprintf(" inherits-default=%v default=%+v", w.inherit[cmd], w.defPol)
 			}
 			w.mu.Lock()
-			p := w.policy[cmd]
+			p, _ := w.effective(cmd)
 			w.mu.Unlock()
 			if viaHandshake && (p.Enc == 0 || p.Integ) && !inv.encState {
 				return fmt.Sprintf("Stream.IsEncrypted() was false inside the handler of command %d, which mandates encryption", cmd)
@@ -297,6 +324,15 @@ func runCase(cs Case) (string, stats) {
 			w.mu.Lock()
 			w.policy[c] = pol{Auth: op.Auth % 4, Enc: op.Enc % 4, Integ: op.Integ}
 			w.mu.Unlock()
+			policyChanged = true
+		case "inherit":
+			c := authCmds[op.Cmd%len(authCmds)]
+			w.mu.Lock()
+			w.inherit[c] = op.On
+			w.mu.Unlock()
+			policyChanged = true
+		case "defpolicy":
+			w.setDefault(pol{Auth: op.Auth % 4, Enc: op.Enc % 4, Integ: op.Integ})
 			policyChanged = true
 		case "authz":
 			w.mu.Lock()
@@ -437,8 +473,6 @@ func runCase(cs Case) (string, stats) {
 			w.mu.Lock()
 			w.curConn, w.keepNext = c.id, op.Keep
 			w.mu.Unlock()
-			first := w.policy[cmd]
-			_ = first
 			st.nontrivial = true
 			m := message.NewMessageForStream(c.cst)
 			_ = m.PutInt(kit.Bg, cmd)
@@ -534,7 +568,7 @@ func genCase(t *rapid.T) Case {
 	var c Case
 	n := rapid.IntRange(3, 10).Draw(t, "nops")
 	for i := 0; i < n; i++ {
-		k := rapid.SampledFrom([]string{"run", "run", "run", "follow", "follow", "resume", "resume", "raw", "policy", "policy", "authz", "authz", "authorizer", "restart", "sidonly"}).Draw(t, "op")
+		k := rapid.SampledFrom([]string{"run", "run", "run", "follow", "follow", "resume", "resume", "raw", "policy", "policy", "authz", "authz", "authorizer", "restart", "sidonly", "inherit", "defpolicy"}).Draw(t, "op")
 		c.Ops = append(c.Ops, Op{K: k, Cmd: rapid.IntRange(0, 6).Draw(t, "cmd"), Kind: rapid.IntRange(0, 3).Draw(t, "kind"), Keep: rapid.Bool().Draw(t, "keep"),
 			Auth: rapid.IntRange(0, 3).Draw(t, "auth"), Enc: rapid.IntRange(0, 3).Draw(t, "enc"), Integ: rapid.IntRange(0, 4).Draw(t, "integ") == 0,
 			Perm: rapid.IntRange(0, 2).Draw(t, "perm"), User: rapid.IntRange(0, 2).Draw(t, "user"), On: rapid.Bool().Draw(t, "on"), Say: rapid.IntRange(0, 35).Draw(t, "say")})
@@ -584,6 +618,20 @@ func TestC05Directed(t *testing.T) {
 							{K: "run", Cmd: first, Kind: kind, Keep: true, Say: say}, {K: "follow", Cmd: second, Keep: true}, {K: "follow", Cmd: first},
 							{K: "resume", Cmd: second, Kind: kind}, {K: "sidonly", Cmd: second, Kind: kind}}})
 					}
+				}
+			}
+		}
+		// the strict policy comes from the server's default: the selector returns nil for the second command
+		for first := 0; first < 4; first++ {
+			for second := 0; second < 4; second++ {
+				if first == second {
+					continue
+				}
+				for _, strong := range []pol{{Auth: 0, Enc: 2}, {Auth: 2, Enc: 0}, {Auth: 0, Enc: 0, Integ: true}} {
+					cases = append(cases, Case{Ops: []Op{
+						{K: "defpolicy", Auth: strong.Auth, Enc: strong.Enc, Integ: strong.Integ}, {K: "inherit", Cmd: second, On: true},
+						{K: "run", Cmd: first, Kind: kind, Keep: true}, {K: "follow", Cmd: second, Keep: true}, {K: "follow", Cmd: first},
+						{K: "resume", Cmd: second, Kind: kind}, {K: "run", Cmd: second, Kind: kind}}})
 				}
 			}
 		}
